@@ -32,10 +32,10 @@ impl Walk {
         self.boundaries.push(p);
     }
     fn f(&mut self, offset: usize, width: usize, kind: &'static str) {
-        self.fields.push(Field { offset, width, kind, enc: Enc::Le });
+        self.fields.push(Field { offset, width, kind, enc: Enc::Le, extra: Vec::new() });
     }
     fn fe(&mut self, offset: usize, width: usize, kind: &'static str, enc: Enc) {
-        self.fields.push(Field { offset, width, kind, enc });
+        self.fields.push(Field { offset, width, kind, enc, extra: Vec::new() });
     }
     pub fn finish(mut self, len: usize) -> Self {
         self.boundaries.retain(|&p| p <= len);
@@ -106,6 +106,21 @@ fn bam_aux(w: &mut Walk, b: &[u8], mut p: usize, end: usize) -> Result<(), Strin
                     b'i' | b'I' | b'f' => 4,
                     _ => return Err(format!("aux array subtype {sub}")),
                 };
+                // counts for which the array ends exactly at, or 1-2 bytes / elements around, the record end
+                let remaining = end.saturating_sub(p + 5);
+                let mut extra = Vec::new();
+                for d in -2i64..=2 {
+                    let bytes = remaining as i64 + d;
+                    if bytes >= 0 {
+                        extra.push((bytes as u64) / es as u64);
+                        extra.push((bytes as u64).div_ceil(es as u64));
+                    }
+                }
+                extra.sort_unstable();
+                extra.dedup();
+                if let Some(f) = w.fields.last_mut() {
+                    f.extra = extra;
+                }
                 5 + es * count
             }
             _ => return Err(format!("aux type {ty}")),
@@ -171,6 +186,29 @@ pub fn bam(b: &[u8]) -> Walk {
         let l_read_name = b[r + 8] as usize;
         let n_cigar = le_u16(b, r + 12).unwrap();
         let l_seq = le_u32(b, r + 16).unwrap();
+        {
+            // layout-aware values: the fixed part (… + packed bases + qualities) ends exactly at the block end or
+            // 1-2 bytes before / after it
+            let fixed = |n: usize, c: usize, l: usize| 32 + n + 4 * c + l.div_ceil(2) + l;
+            let near = |x: usize| (x as i64 - bs as i64).abs() <= 2;
+            let base = w.fields.len() - 9;
+            let mut ex_bs = Vec::new();
+            for d in -2i64..=2 {
+                let v = fixed(l_read_name, n_cigar, l_seq) as i64 + d;
+                if v >= 0 {
+                    ex_bs.push(v as u64);
+                }
+            }
+            let ex_name: Vec<u64> = (0..=255usize).filter(|&n| near(fixed(n, n_cigar, l_seq))).map(|n| n as u64).collect();
+            let ex_cig: Vec<u64> = (0..=(bs / 4 + 2).min(65535)).filter(|&c| near(fixed(l_read_name, c, l_seq))).map(|c| c as u64).collect();
+            let ex_seq: Vec<u64> = (0..=bs + 4).filter(|&l| near(fixed(l_read_name, n_cigar, l))).map(|l| l as u64).collect();
+            // fields were pushed in the order: block_size, ref_id, pos, l_read_name, bin, n_cigar_op, flag, l_seq, …
+            for (i, ex) in [(base - 1, ex_bs), (base + 2, ex_name), (base + 4, ex_cig), (base + 6, ex_seq)] {
+                if let Some(f) = w.fields.get_mut(i) {
+                    f.extra = ex;
+                }
+            }
+        }
         let mut q = r + 32;
         w.b(q);
         q += l_read_name;
